@@ -251,11 +251,11 @@ func (w *World) asmDecl(name string) (map[string]asmParam, *ssa.Function) {
 }
 
 type asmPre struct {
-	minLen     map[string]int64 // param -> minimal length (bytes) the caller must guarantee
-	geLen      [][2]string      // len(a) >= len(b)
-	stride     int64            // bytes consumed per SIMD iteration (0 if none)
-	writesTo   map[string]bool
-	readsFrom  map[string]bool
+	minLen    map[string]int64 // param -> minimal length (bytes) the caller must guarantee
+	geLen     [][2]string      // len(a) >= len(b)
+	stride    int64            // bytes consumed per SIMD iteration (0 if none)
+	writesTo  map[string]bool
+	readsFrom map[string]bool
 }
 
 // analyseAsmFunc interprets one TEXT symbol.
@@ -831,9 +831,9 @@ func ruleKGUARD(w *World, r *Report, pres map[string]*asmPre) {
 	}
 	// unsafe casts
 	for _, spec := range []struct {
-		fn    string
-		op    string
-		k     int64
+		fn string
+		op string
+		k  int64
 	}{{"gf2p16.castTToByteSlice", "*", 2}, {"gf2p16.castByteToTSlice", "/", 2}} {
 		fn := w.Fn(spec.fn)
 		if fn == nil {
